@@ -1,5 +1,6 @@
 """C12 — field ranges (--nth, --with-nth, {N}) select exactly the designated fields."""
 ID = "C12"
+EXTRA_PROPS = ["FieldFnsTables"]   # translate_neg / to_index_pair as TRANSLATED from src/field.rs = the model's functions (Props/FieldFnsTables.lean)
 N_QUICK, N_THOROUGH = 6000, 400000
 RULE = ("lines assembled from fields (empty, ASCII, 2/3/4-byte characters) and instances of the delimiter regex "
         "(13 regexes incl. ones that match empty: x*, \\b, ^, $), leading/trailing/adjacent delimiters; range "
@@ -35,7 +36,7 @@ DELIMS = [
     ("$", [""]),
     (".", ["a", "é", "中"]),
 ]
-FIELD_ALPHA = list("abcXx") + ["é", "中", "😀", "'", " ", ",", ";", "b", "a"]
+FIELD_ALPHA = list("abcXx") + ["é", "中", "😀", "'", " ", ",", ";", "b", "a", "\u3000", "\u00a0", "\x0c", "\x0b"]
 NEEDLE_OK = set("abcXx,; é中😀\t")
 MODES = ["e", "p", "s", "b", "i", "f", "r", "rp", "rs", "x"]
 MALFORMED = ["", "..", "...", "1...2", "a", "1..b", "a..1", "-", "--1", "1-2", "-1-2", "+1", " 1", "1 ", "٣", "３..",
